@@ -47,10 +47,26 @@ class CondPtr:
         self.cond, self.a, self.b = cond, a, b
 
     def get(self, st):
-        return ite(self.cond, self.a.get(st), self.b.get(st))
+        va, vb = self.a.get(st), self.b.get(st)
+        if isinstance(va, C) and isinstance(vb, C) and va is not vb:
+            return merge_agg_new(st, self.cond, va, vb)
+        return ite(self.cond, va, vb)
 
     def set(self, st, v):
         raise ExtractionBreak("mathvc: store through a conditional pointer")
+
+
+def merge_agg_new(st, cond, a, b):
+    if a.keys != b.keys:
+        raise ExtractionBreak("mathvc: merge of aggregates of different shape")
+    out = C(a.keys, a.kind)
+    for k in a.keys:
+        va, vb = st.heap[(a.id, k)], st.heap[(b.id, k)]
+        if isinstance(va, C):
+            st.heap[(out.id, k)] = merge_agg_new(st, cond, va, vb)
+        else:
+            st.heap[(out.id, k)] = ite(cond, va, vb)
+    return out
 
 
 def ite(c, a, b):
@@ -129,35 +145,65 @@ class State:
 
 
 class View:
-    """read-only attribute view of an aggregate in a given state (for spec lambdas)"""
-    def __init__(self, st, c):
+    """read-only attribute view of an aggregate in a given state (for spec lambdas); _path = C++ access path for replay"""
+    def __init__(self, st, c, path=None):
         object.__setattr__(self, "_st", st)
         object.__setattr__(self, "_c", c)
+        object.__setattr__(self, "_path", path)
 
-    def _wrap(self, v):
+    def _wrap(self, v, k):
+        p = None
+        if self._path is not None:
+            p = ("%s[%d]" % (self._path, k)) if isinstance(k, int) else ("%s.%s" % (self._path, k))
         if isinstance(v, C):
-            return View(self._st, v)
+            return View(self._st, v, p)
         if isinstance(v, Ptr):
             t = v.get(self._st)
-            return self._wrap(t) if isinstance(t, C) else t
+            return View(self._st, t, p) if isinstance(t, C) else t
         return v
 
     def __getattr__(self, k):
         try:
-            return self._wrap(self._st.heap[(self._c.id, k)])
+            return self._wrap(self._st.heap[(self._c.id, k)], k)
         except KeyError:
             raise AttributeError(k)
 
     def __getitem__(self, i):
-        return self._wrap(self._st.heap[(self._c.id, self._c.keys[i])])
+        return self._wrap(self._st.heap[(self._c.id, self._c.keys[i])], self._c.keys[i])
 
     def __len__(self):
         return len(self._c.keys)
 
 
 class Evaluator:
-    def __init__(self, tr, mode, models=None):
+    RANGES = {"bool": (0, 1), "char": (-128, 127), "signed char": (-128, 127), "unsigned char": (0, 255), "short": (-32768, 32767),
+              "unsigned short": (0, 65535), "int": (-2**31, 2**31 - 1), "unsigned int": (0, 2**32 - 1), "long": (-2**63, 2**63 - 1),
+              "unsigned long": (0, 2**64 - 1), "long long": (-2**63, 2**63 - 1), "unsigned long long": (0, 2**64 - 1)}
+    CTYPES = {"_Bool": "bool"}
+
+    def in_range(self, v, tyname, what):
+        """int mode with ranges=True: the mathematical value must fit the machine type (then machine = mathematical)"""
+        if not self.ranges or self.mode != "int":
+            return
+        tyname = self.CTYPES.get(tyname, tyname)
+        r = self.RANGES.get(tyname)
+        if r is None or tyname == "bool":
+            return
+        v = tonum(v)
+        f = z3.And(v >= r[0], v <= r[1])
+        if self.guards:
+            f = z3.Implies(z3.And(*self.guards), f)
+        self.oblig.append(("%s_fits_%s" % (what, tyname.replace(" ", "_")), f))
+
+    def add_oblig(self, lab, f):
+        if self.guards:
+            f = z3.Implies(z3.And(*self.guards), f)
+        self.oblig.append((lab, f))
+
+    def __init__(self, tr, mode, models=None, ranges=False):
         self.tr = tr
+        self.ranges = ranges
+        self.guards = []
         self.mode = mode  # "int" | "real"
         self.side = []    # side constraints (definitions of fresh symbols)
         self.oblig = []   # obligations generated on the way (e.g. divisor != 0): (label, formula)
@@ -201,7 +247,11 @@ class Evaluator:
                 name = "%s!u%d" % (name, self.fresh)
             if ty.name == "bool":
                 return z3.Bool(name)
-            return self.sym(name)
+            s = self.sym(name)
+            if self.ranges and self.mode == "int" and ty.name in self.RANGES:
+                lo, hi = self.RANGES[ty.name]
+                self.side.append(z3.And(s >= lo, s <= hi))   # a machine value always lies in its type's range
+            return s
         if ty.kind in ("ptr", "enum"):
             return None
         raise ExtractionBreak("mathvc: value of type %r" % ty)
@@ -249,7 +299,9 @@ class Evaluator:
             return b(self, st, *args)
         mm = re.match(r"verif_(add|sub|mul|div|mod)_(i32|u32|i64|u64|f32|f64)$", fname)
         if mm:
-            return self.arith({"add": "+", "sub": "-", "mul": "*", "div": "/", "mod": "%"}[mm.group(1)], args[0], args[1])
+            v = self.arith({"add": "+", "sub": "-", "mul": "*", "div": "/", "mod": "%"}[mm.group(1)], args[0], args[1], unsigned=mm.group(2).startswith("u"))
+            self.in_range(v, {"i32": "int", "u32": "unsigned int", "i64": "long", "u64": "unsigned long"}.get(mm.group(2), ""), "result_of_" + mm.group(1))
+            return v
         mm = re.match(r"verif_std_(min|max)_\w+$", fname)
         if mm:
             pa, pb = args
@@ -324,9 +376,13 @@ class Evaluator:
                     self.exec_block(a[2], st)
                 return
             s1 = st.fork()
+            self.guards.append(c)
             self.exec_block(a[1], s1)
+            self.guards.pop()
             if a[2] is not None:
+                self.guards.append(z3.Not(c))
                 self.exec_block(a[2], st)
+                self.guards.pop()
             self.merge(c, s1, st)
             return
         raise ExtractionBreak("mathvc: statement kind '%s' (loops are not supported by the math back end)" % k)
@@ -432,8 +488,12 @@ class Evaluator:
             return Ptr(st.frame, n)
         raise ExtractionBreak("mathvc: lvalue kind %s" % k)
 
-    def arith(self, op, x, y):
+    def arith(self, op, x, y, unsigned=False):
         x, y = tonum(x), tonum(y)
+        if op in ("/", "%") and self.mode == "int" and unsigned:
+            # unsigned machine division: operands are non-negative, so Euclidean (z3 div/mod) = truncating division
+            self.add_oblig("divisor_nonzero", y != 0)
+            return (x / y) if op == "/" else (x % y)
         if self.mode == "real":
             x, y = toreal(x), toreal(y)
         if op == "+":
@@ -452,11 +512,11 @@ class Evaluator:
                 else:
                     r = self.newsym("rcp")
                     self.side.append(y * r == 1)
-                    self.oblig.append(("divisor_nonzero", y != 0))
+                    self.add_oblig("divisor_nonzero", y != 0)
                 self.rcp_cache[key] = r
             return z3.simplify(x * r)
         if op in ("/", "%"):
-            self.oblig.append(("divisor_nonzero", y != 0))
+            self.add_oblig("divisor_nonzero", y != 0)
             q, rr = self.newsym("q"), self.newsym("r")
             self.side.append(x == q * y + rr)
             ay = z3.If(y >= 0, y, -y)
@@ -483,13 +543,19 @@ class Evaluator:
             raise ExtractionBreak("mathvc: unary " + a[0])
         if k == "bin":
             op = a[0]
-            if op == "&&":
-                return z3.And(tobool(self.ev(a[1], st)), tobool(self.ev(a[2], st)))
-            if op == "||":
-                return z3.Or(tobool(self.ev(a[1], st)), tobool(self.ev(a[2], st)))
+            if op in ("&&", "||"):
+                l = tobool(self.ev(a[1], st))
+                self.guards.append(l if op == "&&" else z3.Not(l))
+                r = tobool(self.ev(a[2], st))
+                self.guards.pop()
+                return z3.And(l, r) if op == "&&" else z3.Or(l, r)
             l, r = self.ev(a[1], st), self.ev(a[2], st)
             if op in ("+", "-", "*", "/", "%"):
-                return self.arith(op, l, r)
+                uns = x.ty is not None and x.ty.kind == "builtin" and x.ty.name.startswith("unsigned")
+                v = self.arith(op, l, r, unsigned=uns)
+                if x.ty is not None and x.ty.kind == "builtin":
+                    self.in_range(v, x.ty.name, "result_of_" + {"+": "add", "-": "sub", "*": "mul", "/": "div", "%": "mod"}[op])
+                return v
             if op in ("<", ">", "<=", ">=", "==", "!="):
                 return cmp(op, l, r)
             raise ExtractionBreak("mathvc: binary operator " + op)
@@ -504,19 +570,28 @@ class Evaluator:
                 return v
             if self.mode == "real" and a[1].ty is not None and a[1].ty.is_float() and t not in ("float", "double", "long double"):
                 raise ExtractionBreak("mathvc(real): float->int conversion")
+            self.in_range(v, t, "conversion")
             return tonum(v)
         if k == "call":
             args = [self.ev(y, st) for y in a[1]]
             return self.call(a[0], args, st)
         if k == "cond":
             c = tobool(self.ev(a[0], st))
-            return ite(c, self.ev(a[1], st), self.ev(a[2], st))
+            self.guards.append(c)
+            va = self.ev(a[1], st)
+            self.guards.pop()
+            self.guards.append(z3.Not(c))
+            vb = self.ev(a[2], st)
+            self.guards.pop()
+            return ite(c, va, vb)
         if k == "assign":
             op = a[0]
             p = self.lv(a[1], st)
             v = self.ev(a[2], st)
             if op != "=":
                 v = self.arith(op[:-1], p.get(st), v)
+            if x.ty is not None and x.ty.kind == "builtin" and not isinstance(v, (C, Inf)) and v is not None and not isinstance(v, (Ptr, CondPtr)):
+                self.in_range(v, x.ty.name, "stored_value")
             self.store(st, p, v)
             return v
         if k == "comma":
